@@ -108,7 +108,7 @@ func explainOne(st ast.Statement) (res string) {
 			res = "PANIC"
 		}
 	}()
-	out := parser.Explain(st)
+	out := rdr.Twice(func() string { return parser.Explain(st) })
 	if !strings.HasPrefix(out, head) {
 		return "SHAPE"
 	}
